@@ -298,6 +298,59 @@ def check_long(sub, case):
              sample={"ops": names}, evals=0)
 
 
+# -- a long run first ------------------------------------------------------------------------------------------------------------
+# More rows than 2**17 (and than 10**5): whatever a check keeps per key or per row in tiers, caches or spill structures
+# has switched to its big-data mode by the end of such a run.  The run after it uses keys and values from the LAST rows of
+# the long one.
+BIG_ROWS = 131100
+
+
+def _big_table():
+    return HEAD + [[str(1000000 + index), "ab"[index % 2], "g"] for index in range(BIG_ROWS)]
+
+
+def _tail_table():
+    return HEAD + [[str(1000000 + BIG_ROWS - 1 - 7 * index), "ab"[index % 2], "g"] for index in range(4)]
+
+
+def _big_shard(name):
+    from vlib.runner import Sub
+
+    sub = Sub("after-long-run")
+    big, tail = _big_table(), _tail_table()
+    followers = {
+        "read": lambda cid: _read(cid, tail),
+        "read-continue": lambda cid: _read(cid, tail, mode="continue"),
+        "validate": lambda cid: _validate(cid, tail, None),
+        "write": lambda cid: _write(cid, tail[1:], True),
+    }
+    first = {"read-first": lambda cid: _read(cid, big, mode="continue"),
+             "write-first": lambda cid: _write(cid, big[1:], True)}
+    for first_name, first_op in sorted(first.items()):
+        if (first_name == "write-first") != name.startswith("write|"):
+            continue
+        follower = followers[name.split("|")[1]]
+        shared = cidlib.load_cid(CID_ROWS)
+        long_run = first_op(shared)
+        if long_run.get("ended") is not None or any(item[0] == "error" for item in long_run.get("items", [])):
+            sub.fail("C08|harness|long-run", {"big": name}, "the long run itself failed: %r" % (long_run.get("ended"),))
+            continue
+        actual = follower(shared)
+        fresh = follower(cidlib.load_cid(CID_ROWS))
+        sub.evaluations += 1
+        if actual != fresh:
+            sub.fail("C08|differs|after-long-run|%s" % _first_difference(fresh, actual), {"big": name},
+                     "after a run of %d rows (%s) the run %s gives %r on the shared CID and %r on a fresh one" % (
+                         BIG_ROWS, first_name, name, actual, fresh))
+    sub.bulk(sub.evaluations, sub.evaluations, {"after-long-run": sub.evaluations})
+    sub.evaluations = 0
+    sub.samples.append({"big": name, "rows_of_the_long_run": BIG_ROWS})
+    return sub
+
+
+BIG_CASES = ["read|read", "read|read-continue", "read|validate", "read|write", "write|read", "write|write"]
+
+
 # -- generated CIDs, generated data sets, generated operation sequences ---------------------------------------------
 _LINE_ENDS = {"LF": ["\n"], "CR": ["\r"], "CRLF": ["\r\n"], "Any": ["\n", "\r\n", "\r"], None: ["\n", "\r\n", "\r"]}
 
@@ -405,10 +458,14 @@ def run(ctx):
     shards = ctx.workers * 2
     ctx.par(_shard, [(i, shards, ctx.n(4, 5)) for i in range(shards)])
     ctx.hyp("long", long_cases, check_long, ctx.n(1500, 20000))
+    ctx.par(_big_shard, list(BIG_CASES))
     ctx.hyp("generated", generated_cases, check_generated, ctx.n(800, 20000))
 
 
 def replay(sub, case):
+    if "big" in case:
+        sub.merge(_big_shard(case["big"]))
+        return
     if "spec" in case:
         check_generated(sub, case)
     else:
